@@ -6,7 +6,7 @@
    by the implementation oracle only. *)
 From Coq Require Import Reals List.
 From Coquelicot Require Import Coquelicot.
-From AG Require Import RealPrelude ScalarRules.
+From AG Require Import RealPrelude ScalarRules VSpace VSpaceProof Select.
 From AGGen Require Import GenRules.
 Local Open Scope R_scope.
 
@@ -58,3 +58,15 @@ Proof.
         (conj linear_multiply_0 linear_multiply_1))))).
 Qed.
 Print Assumptions C02_same_entries_linear.
+
+(* selection primitives: the gather of the tangent IS the linear part of the function - f(x + v) = f(x) + J v exactly,
+   whatever the constants at the output positions that do not read the argument *)
+Theorem C02_selection_jvp_is_linear_part :
+  forall (K : Type) (k0 k1 : K) (kadd kmul ksub : K -> K -> K) (kopp : K -> K),
+    ring_theory k0 k1 kadd kmul ksub kopp eq ->
+    forall sel consts x v,
+      length x = length v -> length consts = length sel ->
+      Select.sapply K k0 kmul sel consts (VSpaceProof.vadd K kadd x v)
+      = VSpaceProof.vadd K kadd (Select.sapply K k0 kmul sel consts x) (Select.sgather K k0 kmul sel v).
+Proof. exact Select.sapply_affine. Qed.
+Print Assumptions C02_selection_jvp_is_linear_part.
